@@ -5917,9 +5917,11 @@ class PyCdlib:
         if signature != b'\xfb\xc0\x78\x70':
             raise pycdlibexception.PyCdlibInvalidInput('Invalid signature on boot file for iso hybrid')
 
-        self.isohybrid_mbr = isohybrid.IsoHybrid()
-        self.isohybrid_mbr.new(efi, mac, part_entry, mbr_id, part_offset,
-                               geometry_sectors, geometry_heads, part_type)
+        isohybrid_mbr = isohybrid.IsoHybrid()
+        isohybrid_mbr.new(efi, mac, part_entry, mbr_id, part_offset,
+                          geometry_sectors, geometry_heads, part_type)
+        # Only a hybrid that new() accepted becomes part of the ISO.
+        self.isohybrid_mbr = isohybrid_mbr
 
         # The boot file location recorded in the MBR (and the EFI and Mac
         # partitions) is only filled in when the extents are assigned.
